@@ -91,7 +91,13 @@ CLAIMS = {
         "note": "Does not decide the run-time subset matching (that a placed drawing yields exactly one circle and nothing else).",
         "technique": "catalogue evaluation from syntax-tree literals + MIR/syntax conformance of the formulas",
     },
+    "C14": {
+        "text": "Table clause decided by table abstract evaluation with exact rationals: every arrow-tagged polygon (ASCII entries in all eight directions and Unicode triangles) is filled, tagged away from the tested neighbour, has its tip on the axis of the neighbour's segment beyond the stub and its base straddling the axis; bullet circle literals map through merge_circle's thresholds (read from source, folded) to filled/open/big-open markers, each constructed marker variant has matching Display string, CSS rules, url(#id) and emitted <marker id> with the right fill class, marker-line class templates use the same prefixes and the marked end is the circle centre; every corner arc (33 today) has attached end points and its SVG centre on the inner side (axis-aligned corner for axis-parallel neighbours).",
+        "design_ref": "DESIGN.md section 4 C14",
+        "note": "Does not decide the run-time merge of polygon + line into marker lines nor arcs taken from the big-circle catalogue.",
+        "technique": "table abstract evaluation (exact rational geometry, SVG arc semantics) + syntax-tree agreement rules (Display/CSS/marker ids) + MIR expression patterns",
+    },
 }
 
 NOT_APPLICABLE = {p: _PENDING for p in
-                  ["C01", "C04", "C05", "C06", "C10", "C14", "C15", "C19", "C20"]}
+                  ["C01", "C04", "C05", "C06", "C10", "C15", "C19", "C20"]}
